@@ -553,11 +553,14 @@ class YP(object):
         r = [ V1.get_value() for r in q ]
         assert r == [ yp.atom('tom') ]
         """
-        yield from self.match_dynamic(self.atom(name), args)
+        # the definitions are looked up when the call starts, together with the
+        # snapshot of the facts, not when the facts run out
+        function = None
         if name not in self.eval_blacklist:
             function = self.eval_context.get(f'{name}_{len(args)}', self.eval_context.get(f'{name}_n'))
-            if function is not None:
-                yield from function(*args)
+        yield from self.match_dynamic(self.atom(name), args)
+        if function is not None:
+            yield from function(*args)
 
     def evaluate_bounded(self, query, projection_function, recursion_limit=200):
         """Evaluates a query, but limits the recursion depth to recursion_limit. If a query
